@@ -300,9 +300,13 @@ def m_holds(tr):
             bad.append(("invalid-request-accepted", f"invalid request {a[1:7]} accepted"))
     table = remaining_reservations(w, tr.after.orders)
     exp = collections.defaultdict(lambda: ZERO)
-    for res in table.values():
+    listed = set(tr.after.open_ids)
+    for oid, res in table.items():
         for s, v in res.items():
             exp[s] += v
+        if oid not in listed and any(res.values()):
+            # funds may only be on hold on behalf of orders the exchange itself lists as open
+            bad.append(("hold-for-unlisted-order", f"{res} is reserved for an order that get_open_orders() does not list"))
     for s in set(exp) | set(tr.after.bal):
         hold = tr.after.bal.get(s, (ZERO, ZERO, ZERO, ZERO))[1]
         if hold != exp[s]:
@@ -459,13 +463,17 @@ def m_margin(tr):
     if granted:
         pr = prices_of(w)
         req = D(str(cfg["lend"]["req"]))
-        unpriced = sorted(s for s, b in tr.after.bal.items() if b[2] and s not in pr)
-        if unpriced and req > 0:
+        by_symbol = {k: D(str(v)) for k, v in (cfg["lend"].get("req_by_symbol") or {}).items()}
+
+        def req_of(sym):
+            return by_symbol.get(sym, req)
+        unpriced = sorted(s for s, b in tr.after.bal.items() if b[2] and s not in pr and req_of(s) > 0)
+        if unpriced:
             bad.append(("loan-without-price", f"loan granted while {unpriced} is borrowed and has no last price: the requirement "
                         f"cannot be valued"))
-        if all(s in pr for s, b in tr.after.bal.items() if b[2] or b[3]):
+        if all(s in pr for s, b in tr.after.bal.items() if (b[2] and req_of(s) > 0) or b[3] > 0):
             equity = sum((max(b[3], ZERO) * pr[s] for s, b in tr.after.bal.items() if s in pr), ZERO)
-            need = sum((req * b[2] * pr[s] for s, b in tr.after.bal.items() if s in pr), ZERO)
+            need = sum((req_of(s) * b[2] * pr[s] for s, b in tr.after.bal.items() if s in pr and req_of(s) > 0), ZERO)
             if equity < need:
                 via = w.loan_meta[granted[0]]["via"]
                 bad.append(("loan-below-requirement", f"{via} loan granted with equity {equity} < requirement {need} "
